@@ -69,9 +69,15 @@ func (t *floatScalar) CoerceOut(v interface{}) (interface{}, error) {
 	case nil:
 		// remains nil
 	case float32:
-		// ok as is
+		if math.IsNaN(float64(tv)) || math.IsInf(float64(tv), 0) {
+			return nil, newCoerceErr(v, "Float")
+		}
 	case float64:
-		v = float32(tv)
+		f := float32(tv)
+		if math.IsNaN(tv) || math.IsInf(float64(f), 0) {
+			return nil, newCoerceErr(v, "Float")
+		}
+		v = f
 	case int:
 		v = float32(tv)
 	case int8:
@@ -94,7 +100,10 @@ func (t *floatScalar) CoerceOut(v interface{}) (interface{}, error) {
 		v = float32(tv)
 	case string:
 		var f float64
-		if f, err = strconv.ParseFloat(tv, 64); err == nil {
+		if f, err = strconv.ParseFloat(tv, 32); err == nil {
+			if math.IsNaN(f) || math.IsInf(f, 0) {
+				return nil, newCoerceErr(v, "Float")
+			}
 			v = float32(f)
 		}
 	default:
